@@ -133,14 +133,15 @@ func decorFor(id int) decoration.Decoration {
 const c17Builtin = "utf8-double"
 
 // built lazily: nothing of the library may run before C16's cold-start program
-var c17BuiltinOrigVal *decoration.Decoration
+var (
+	c17BuiltinOrigOnce sync.Once
+	c17BuiltinOrigVal  decoration.Decoration
+)
 
 func c17Orig() decoration.Decoration {
-	if c17BuiltinOrigVal == nil {
-		d := decoration.UTF8BoxDouble()
-		c17BuiltinOrigVal = &d
-	}
-	return *c17BuiltinOrigVal
+	// sync.Once: the free-running -race pass calls this from many goroutines
+	c17BuiltinOrigOnce.Do(func() { c17BuiltinOrigVal = decoration.UTF8BoxDouble() })
+	return c17BuiltinOrigVal
 }
 
 func decorID(d decoration.Decoration, ids int) int {
